@@ -24,7 +24,7 @@ func fmtPipfile() *format {
 			{name: "eol", labels: eolLabels},
 			{name: "trail", labels: trailLabels},
 			{name: "indent", labels: []string{"4-spaces", "compact"}},
-			{name: "extras", labels: []string{"minimal", "hashes-index-markers"}},
+			{name: "extras", labels: []string{"minimal", "hashes-index-markers", "unrelated-fields-in-every-json-shape"}},
 			{name: "top", labels: []string{"meta-default-develop", "develop-default-meta"}},
 			{name: "develop", kind: count},
 		},
@@ -46,6 +46,9 @@ func fmtPipfile() *format {
 					{"markers", "python_version >= '3.7'"},
 					{"version", "==" + r.Version},
 				}
+			}
+			if l.get("extras") == 2 {
+				e = withOdd(append(jo{{"extras", ja{"security", "socks"}}, {"hashes", ja{}}}, e...), i)
 			}
 			if i >= len(recs)-nDev {
 				dev = append(dev, jkv{r.Name, e})
